@@ -32,4 +32,18 @@ macro "expr_close" : tactic => `(tactic|
   | (norm_num; ring_nf; done)
   | (push_cast; split_ifs <;> norm_num <;> ring_nf; done))
 
+/-- closer for `evalR Gen.X = <closed form>` goals after `expr_unfold`: insensitive to operand order, association, the spelling of
+    integer powers and of decimal literals (so that semantics-preserving rewrites of the Python source do not break the proof) -/
+macro "expr_finish" : tactic => `(tactic|
+  first
+  | rfl
+  | (simp only [zpow_ofNat, zpow_neg, zpow_one]; done)
+  | (norm_num; done)
+  | (push_cast; simp only [zpow_ofNat, zpow_neg]; ring_nf; done)
+  | (norm_num [zpow_ofNat, zpow_neg]; ring_nf; done)
+  | (simp [zpow_ofNat]; done)
+  | (simp [zpow_ofNat]; ring_nf; done)
+  | (push_cast; simp only [zpow_ofNat, zpow_neg]; field_simp; done)
+  | (push_cast; simp only [zpow_ofNat, zpow_neg]; field_simp; ring_nf; done))
+
 end Hmf
